@@ -52,7 +52,9 @@ def render (g : PGraph) : Array String := Id.run do
   for cs in g.clocks do
     if g.calive.getD i false then
       let sorted := (cs.toArray.qsort npLt).toList
-      out := out.push (" ".intercalate (["k", toString i, showOH (g.cdrv.getD i none), showOH (g.rdrv.getD i none), toString cs.length] ++ sorted.map showNP))
+      let ca := g.caches.getD i []
+      out := out.push (" ".intercalate (["k", toString i, showOH (g.cdrv.getD i none), showOH (g.rdrv.getD i none), toString cs.length] ++ sorted.map showNP ++
+        ["c", toString ca.length] ++ ca.map showNP))
     else
       out := out.push s!"k {i} x"     -- destroyed clock
     i := i + 1
@@ -168,6 +170,7 @@ def parseOp (toks : List String) : Option (List Op) :=
   | "newclock" :: _ => some [.createClock]
   | ["clone", h] => some [.cloneNode (pNat h)]
   | ["killclock", c] => some [.destroyClock (pNat c)]
+  | ["getclocked", c] => some [.getClockedNodes (pNat c)]
   | ["setdrv", k, c, h] => some [.setLogicDriver (pNat k) (pNat c) (pNat h)]
   | "copysubnet" :: cc :: nIn :: rest =>
     let ins := (rest.take (pNat nIn)).map pNP
@@ -222,6 +225,7 @@ def invReport (s : State) : List String :=
   (if decide (IdInv s.size s.alive s.nid s.nextId) then [] else ["ids"]) ++
   (if decide (CAInv s.size s.alive s.numClk s.clk s.calive) then [] else ["deadclock"]) ++
   (if decide (DriverInv s.size s.alive s.dk s.numClk s.clk s.nclocks s.calive s.drv) then [] else ["drivers"]) ++
+  (if decide (CacheInv s.nclocks s.clocked s.cache) then [] else ["cache"]) ++
   (if decide (OrderInv s.size s.alive s.order) then [] else ["storage"])
 
 /-- first differing line of two renderings -/
@@ -297,10 +301,12 @@ partial def loop (h : IO.FS.Stream) (d : DS) : IO DS := do
       loop h { d with g := { d.g with nodes := d.g.nodes.push n }, raw := d.raw.push ln }
     | "g" :: _ :: _ :: rest => loop h { d with g := { d.g with groups := d.g.groups.push (rest.map pH) }, raw := d.raw.push ln }
     | ["k", _, "x"] =>
-      loop h { d with g := { d.g with clocks := d.g.clocks.push [], calive := d.g.calive.push false, cdrv := d.g.cdrv.push none,
+      loop h { d with g := { d.g with clocks := d.g.clocks.push [], caches := d.g.caches.push [], calive := d.g.calive.push false, cdrv := d.g.cdrv.push none,
                                        rdrv := d.g.rdrv.push none }, raw := d.raw.push ln }
-    | "k" :: _ :: cd :: rd :: _ :: rest =>
-      loop h { d with g := { d.g with clocks := d.g.clocks.push (rest.map pNP), calive := d.g.calive.push true, cdrv := d.g.cdrv.push (pOH cd),
+    | "k" :: _ :: cd :: rd :: n :: rest =>
+      let setE := (rest.take (pNat n)).map pNP
+      let caE := ((rest.drop (pNat n)).drop 2).map pNP     -- after the marker "c" and the count
+      loop h { d with g := { d.g with clocks := d.g.clocks.push setE, caches := d.g.caches.push caE, calive := d.g.calive.push true, cdrv := d.g.cdrv.push (pOH cd),
                                        rdrv := d.g.rdrv.push (pOH rd) }, raw := d.raw.push ln }
     | "t" :: hh :: rest => loop h { d with kinds := d.kinds.push (pNat hh, rest.headD "?", parseKind rest) }
     | _ =>
@@ -319,6 +325,7 @@ partial def loop (h : IO.FS.Stream) (d : DS) : IO DS := do
   | "D" :: n :: _ => loop h { d with inDump := true, g := { size := pNat n }, raw := #[ln], kinds := #[] }
   | "at" :: w :: _ => loop h { d with lastAt := w, stepNo := d.stepNo + 1, boundaries := bump d.boundaries w }
   | "rl" :: w :: _ => loop h { d with reallocs := bump d.reallocs w }
+  | "sh" :: moved :: _ => loop h { d with flags := bump d.flags (if pNat moved > 0 then "shuffle_changed_order" else "shuffle_identity") }
   | "post" :: w :: _ => loop h { d with res := bump d.res ("post-" ++ w) }
   | "build" :: w :: _ => loop h { d with res := bump d.res ("build-" ++ w) }
   | "op" :: rest =>
